@@ -385,11 +385,35 @@ def read_api(t, api: str, op: dict) -> Optional[list]:
     raise ValueError(api)
 
 
+def _install_preemption(sim, a, p: float) -> None:
+    """Line-level pre-emption (shared-handle scenarios): every 'line' event executed by this actor inside datashard
+    source files is a potential context switch, taken with probability p (drawn from the actor's own stream, so it
+    is reproducible and independent of the schedule of the others)."""
+    import sys
+    import datashard
+    src = os.path.dirname(os.path.realpath(datashard.__file__))
+    rng = a.rng_lat
+
+    def local(frame, event, arg):
+        if event == "line" and rng.random() < p and not sim.tearing_down:
+            sim.probe("line_preemption")
+            sim.yield_point()
+        return local
+
+    def glob(frame, event, arg):
+        if event == "call" and frame.f_code.co_filename.startswith(src):
+            return local
+        return None
+    sys.settrace(glob)
+
+
 def run_ops(ctx: Ctx, ops: List[dict]) -> None:
     """Actor body: run ops in order, recording invoke/return event numbers and outcomes."""
     w = ctx.world
     sim = w.sim
     a = sim.me()
+    if a is not None and sim.extra.get("preempt_p") and getattr(ctx, "line_fault", None) is None:
+        _install_preemption(sim, a, sim.extra["preempt_p"])
     for i, op in enumerate(ops):
         rec = {"actor": ctx.name, "proc": a.proc.name if a else "-", "i": i, "op": op,
                "invoke": sim.gstep, "invoke_flips": len(w.flips)}
